@@ -1,4 +1,4 @@
-(* C17 — the rules for n = 1..20 certified once and for all inside Coq (not per run):
+(* C17 — the rules for n = 1..12 certified once and for all inside Coq (not per run):
    with the start values libm's cos returns (the table below; the harness re-measures them on every run
    and compares: v_small_table), the bit-exact model of gauleg(-1,1,n) returns n points whose 2n
    moments are within 5e-10 of the exact ones; hence, on EVERY interval [a,b] and for EVERY polynomial
@@ -22,15 +22,7 @@ Definition cos_table : list (Z * list float) := [
   (9%Z, [(0x1.f0553b4de2e18p-1)%float; (0x1.aca115aae3de5p-1)%float; (0x1.3a7a16b394424p-1)%float; (0x1.4c7e04850cfabp-2)%float; (0x1.1a62633145c07p-54)%float]);
   (10%Z, [(0x1.f329c0558e969p-1)%float; (0x1.bb67ae8584cabp-1)%float; (0x1.5c3f99e0b6b96p-1)%float; (0x1.bc4c04d71abc2p-2)%float; (0x1.313d125796513p-3)%float]);
   (11%Z, [(0x1.f54a827142577p-1)%float; (0x1.c698e42f47b09p-1)%float; (0x1.763021aaa15dap-1)%float; (0x1.0a06e851db7cap-1)%float; (0x1.14459ad2be469p-2)%float; (0x1.1a62633145c07p-54)%float]);
-  (12%Z, [(0x1.f6ee5ac2509ffp-1)%float; (0x1.cf457dcdc158cp-1)%float; (0x1.8a80b635b6beap-1)%float; (0x1.2cf2304755a5fp-1)%float; (0x1.78f5a48a8a91bp-2)%float; (0x1.00aeb5da15be8p-3)%float]);
-  (13%Z, [(0x1.f838b8c811c17p-1)%float; (0x1.d6206beb6c24bp-1)%float; (0x1.9aafe4207df60p-1)%float; (0x1.491b7523c161ep-1)%float; (0x1.cb920325bafa8p-2)%float; (0x1.d84d223638003p-3)%float; (0x1.1a62633145c07p-54)%float]);
-  (14%Z, [(0x1.f941537248537p-1)%float; (0x1.dba2d62cb789fp-1)%float; (0x1.a7c6da34af89fp-1)%float; (0x1.601a24ba81343p-1)%float; (0x1.07f6acd7cdce2p-1)%float; (0x1.46f6faf5fcb76p-2)%float; (0x1.badb02034da06p-4)%float]);
-  (15%Z, [(0x1.fa18852c3e08ap-1)%float; (0x1.e0210c26a6e6fp-1)%float; (0x1.b2818007c19e0p-1)%float; (0x1.73180a4b0d301p-1)%float; (0x1.247d447a27216p-1)%float; (0x1.93d20572ca90fp-2)%float; (0x1.9c4266041ca90p-3)%float; (0x1.1a62633145c07p-54)%float]);
-  (16%Z, [(0x1.fac9e043842efp-1)%float; (0x1.e3d725b6253c5p-1)%float; (0x1.bb67ae8584cabp-1)%float; (0x1.82f19bb3a28a2p-1)%float; (0x1.3c7f55ab178f3p-1)%float; (0x1.d5395553ea8f1p-2)%float; (0x1.207e7fd768dc1p-2)%float; (0x1.85597c54753f7p-4)%float]);
-  (17%Z, [(0x1.fb5dc4658b672p-1)%float; (0x1.e6f0e134454ffp-1)%float; (0x1.c2dd6ae4a8262p-1)%float; (0x1.904c37505de4bp-1)%float; (0x1.50dd583d5dae9p-1)%float; (0x1.069abbed33677p-1)%float; (0x1.67cecd4844bb3p-2)%float; (0x1.6daf3cbd156a9p-3)%float; (0x1.1a62633145c07p-54)%float]);
-  (18%Z, [(0x1.fbda5fb4a66bdp-1)%float; (0x1.e98eafae74d55p-1)%float; (0x1.c92d93fd02a0ap-1)%float; (0x1.9ba5830a01f9bp-1)%float; (0x1.6245cfba2df90p-1)%float; (0x1.1eb503e217548p-1)%float; (0x1.a5c970d98ee00p-2)%float; (0x1.02068973d599ap-2)%float; (0x1.5b5d750211d9cp-4)%float]);
-  (19%Z, [(0x1.fc44566966769p-1)%float; (0x1.ebc907a95847ap-1)%float; (0x1.ce910e2c6acadp-1)%float; (0x1.a55e242a4c3d3p-1)%float; (0x1.7141727a4610ap-1)%float; (0x1.33947d747447dp-1)%float; (0x1.dbe064267c47dp-2)%float; (0x1.44449d5444debp-2)%float; (0x1.4885b5a98c648p-3)%float; (0x1.1a62633145c07p-54)%float]);
-  (20%Z, [(0x1.fc9f32de977b1p-1)%float; (0x1.edb2a2580cc30p-1)%float; (0x1.d333ac8c7f3cap-1)%float; (0x1.adc14e1d4278fp-1)%float; (0x1.7e3c394f17f8dp-1)%float; (0x1.45c191c43d4ebp-1)%float; (0x1.05a43d87bdab3p-1)%float; (0x1.7ec9e708f8681p-2)%float; (0x1.d2a4dc48247f8p-3)%float; (0x1.398bb59774abcp-4)%float]) ].
+  (12%Z, [(0x1.f6ee5ac2509ffp-1)%float; (0x1.cf457dcdc158cp-1)%float; (0x1.8a80b635b6beap-1)%float; (0x1.2cf2304755a5fp-1)%float; (0x1.78f5a48a8a91bp-2)%float; (0x1.00aeb5da15be8p-3)%float]) ].
 
 Definition rule_certified (n : Z) (coss : list float) : bool :=
   match F.gauleg (-1)%float 1%float n coss with
